@@ -149,14 +149,14 @@ func step(ws []string) string {
 // ------------------------------------------------------------ generation
 
 type gen struct {
-	r      *util.Rng
-	out    *strings.Builder
-	nextID int
-	live   []int       // ids currently registered
-	fdOf   map[int]int // id -> fd
-	liveFd map[int]bool
-	freed  []int // recently removed descriptor numbers
-	hist   map[string]int
+	r        *util.Rng
+	out      *strings.Builder
+	nextID   int
+	live     []int       // ids currently registered
+	fdOf     map[int]int // id -> fd
+	liveFd   map[int]bool
+	freed    []int // recently removed descriptor numbers
+	hist     map[string]int
 	capacity int
 }
 
